@@ -1,7 +1,7 @@
 """Q5 (ledger persists what it compares), F1 (header/schema gate before the payload), W2 (tag tables)."""
 from .. import rx, wire
 from ..core import ob, rule, where
-from ..ir import callee, calls, peel, peel_block, walk
+from ..ir import callee, calls, children, peel, peel_block, walk
 from ..rx import ev
 from ..shape import Analyzer, Ex
 
@@ -575,47 +575,151 @@ def w13(facts, tier):
 # ---------------------------------------------------------------------------------------------
 # K3 (C14): both ends of the encrypted container derive the key the same way
 
-def key_derivation_shape(f):
-    """calls (callee + literal/const arguments) up to the creation of the crypto stream"""
-    out = []
-    for x in walk(f["body"]):
-        if x.get("k") != "Call":
-            continue
-        c = callee(x) or ""
-        if c.endswith(("CryptoWriter::new", "CryptoReader::new")):
-            break
-        if c.startswith(("ring::", "core::slice", "[T]::", "str::", "core::panicking")) or "digest" in c:
-            lits = []
-            for a in x.get("args", []):
-                for y in walk(a):
-                    if y.get("k") == "Lit" and "int" in y:
-                        lits.append(y["int"])
-                    if y.get("k") in ("Static", "Const"):
-                        lits.append(y.get("id"))
-            if not c.startswith("core::panicking"):
-                out.append((c, tuple(lits)))
-    return out
+TRANSPARENT = ("::as_ref", "::as_bytes", "::as_slice", "::deref", "::borrow", "::as_str", "::into", "::from", "::try_into", "::unwrap",
+               "::clone", "::to_owned", "::to_vec", "::as_mut", "::expect")
+LOSSY = ("trim", "trim_end", "trim_start", "trim_matches", "trim_end_matches", "trim_start_matches", "to_lowercase", "to_uppercase",
+         "to_ascii_lowercase", "to_ascii_uppercase", "replace", "replacen", "split", "split_whitespace", "strip_prefix", "strip_suffix",
+         "get", "chars", "truncate", "split_at", "lines", "len", "is_empty", "first", "last", "take", "skip", "nth", "filter",
+         "eq_ignore_ascii_case", "min", "max")
 
 
-def key_len(f):
-    for x in walk(f["body"]):
-        if x.get("k") == "Repeat" and x.get("ty", "").startswith("[u8;"):
-            return x.get("n")
+class Provenance:
+    """how a value is computed from the parameters of a function: a term over calls, constants and parameters (local helpers
+    of the crate are inlined; views such as as_bytes/as_ref and copies into a fresh buffer are transparent)"""
+
+    def __init__(self, facts):
+        self.facts = facts
+
+    def run(self, f, args=None, depth=0):
+        env = {}
+        for i, p in enumerate(f["params"]):
+            pat = p.get("pat")
+            if pat and pat.get("k") == "Bind":
+                env[pat["v"]] = args[i] if args is not None and i < len(args) else ("param", pat["v"].split("#")[0])
+        self.sites = getattr(self, "sites", [])
+        ret = self.block(f["body"], env, depth)
+        return ret
+
+    def block(self, n, env, depth):
+        n0 = n
+        if n.get("k") != "Block":
+            return self.term(n, env, depth)
+        for s in n["stmts"]:
+            if s["k"] == "LetS":
+                if s.get("init") is not None and s["pat"].get("k") == "Bind":
+                    env[s["pat"]["v"]] = self.term(s["init"], env, depth)
+                elif s.get("init") is not None:
+                    self.term(s["init"], env, depth)
+            else:
+                self.term(s["e"], env, depth)
+        return self.term(n["e"], env, depth) if n.get("e") is not None else ("unit",)
+
+    def term(self, n, env, depth):
+        if not isinstance(n, dict):
+            return ("?",)
+        k = n.get("k")
+        if k in ("Ref", "Deref", "Coerce", "RawRef", "Cast", "Try", "ExprS"):
+            return self.term(n["e"], env, depth)
+        if k == "Block":
+            return self.block(n, dict(env) if False else env, depth)
+        if k == "Var":
+            return env.get(n["v"], ("var", n["v"].split("#")[0]))
+        if k == "Lit":
+            return ("const", n.get("int", n.get("str")))
+        if k in ("Static", "Const"):
+            return ("static", n.get("id"))
+        if k == "Repeat":
+            return ("fresh-buffer", n.get("n"))
+        if k in ("If", "Match"):
+            for c in children(n):
+                self.term(c, env, depth)
+            return ("?", k)
+        if k == "Index":
+            return ("call", "index", [self.term(n["e"], env, depth), self.term(n["i"], env, depth)])
+        if k == "Field":
+            return ("field", n["f"], self.term(n["e"], env, depth))
+        if k == "Call":
+            c = callee(n) or "?"
+            args = [self.term(a, env, depth) for a in n["args"]]
+            name = c.rsplit("::", 1)[-1]
+            if name in ("clone_from_slice", "copy_from_slice") and len(n["args"]) == 2:
+                dst = peel(n["args"][0])
+                if dst.get("k") == "Var":
+                    env[dst["v"]] = args[1]
+                return ("unit",)
+            self.sites.append((c, args, n))
+            target = (n.get("res") or {}).get("fn") or n.get("fn")
+            h = self.facts.fns.get(target)
+            if h is not None and h["crate"] == "savefile" and h.get("body") and depth < 4 and not (h.get("impl") or {}).get("trait") \
+                    and not c.endswith(("::new", "::load", "::save")):
+                return Provenance.run(self, h, args, depth + 1)
+            if any(c.endswith(t) for t in TRANSPARENT) and len(args) == 1:
+                return args[0]
+            return ("call", c, args)
+        return ("?", k)
+
+
+def show_term(t):
+    if not isinstance(t, tuple):
+        return str(t)
+    if t[0] == "call":
+        return t[1].rsplit("::", 1)[-1] + "(" + ", ".join(show_term(a) for a in t[2]) + ")"
+    if t[0] == "param":
+        return t[1]
+    if t[0] == "static":
+        return str(t[1]).rsplit("::", 1)[-1]
+    return "<" + " ".join(str(x) for x in t[:2]) + ">"
+
+
+def key_term(facts, f):
+    pv = Provenance(facts)
+    pv.sites = []
+    pv.run(f)
+    for c, args, n in pv.sites:
+        if c.endswith(("CryptoWriter::new", "CryptoReader::new")) and len(args) == 2:
+            return args[1]
     return None
 
 
-@rule("K3", ["C14"], floor=1, doc="save_encrypted_file and load_encrypted_file derive the key from the password by the same digest and length")
+def calls_in(t):
+    if isinstance(t, tuple) and t and t[0] == "call":
+        yield t[1]
+        for a in t[2]:
+            yield from calls_in(a)
+
+
+@rule("K3", ["C14"], floor=2, doc="save_encrypted_file and load_encrypted_file derive the key as the same function of the password: a cryptographic "
+      "digest of exactly the password bytes (helpers inlined; any other transformation of the password between the parameter and the "
+      "digest maps distinct passwords to one key)")
 def k3(facts, tier):
     a = facts.fns.get("savefile::crypto::save_encrypted_file")
     b = facts.fns.get("savefile::crypto::load_encrypted_file")
     if a is None or b is None:
         return
-    sa, sb = key_derivation_shape(a), key_derivation_shape(b)
-    ok = sa == sb and bool(sa) and key_len(a) == key_len(b)
-    yield ob(["C14"], "K3", "key-derivation", "pass" if ok else "violation", where(b),
-             f"both ends derive a {key_len(a)}-byte key by {[c for c, _ in sa][:2]}" if ok else
-             f"key derivation differs between save ({sa}, key {key_len(a)} bytes) and load ({sb}, key {key_len(b)} bytes): "
-             f"a file cannot be read back with the password it was written with")
+    ta, tb = key_term(facts, a), key_term(facts, b)
+    ok = ta is not None and ta == tb
+    yield ob(["C14"], "K3", "key-derivation:same-on-both-ends", "pass" if ok else "violation", where(b),
+             f"both ends compute the key as {show_term(ta)}" if ok else
+             f"key derivation differs between save ({show_term(ta)}) and load ({show_term(tb)}): a file cannot be read back with the "
+             f"password it was written with")
+    for name, f, t in (("save", a, ta), ("load", b, tb)):
+        key = f"key-derivation:{name}:digest-of-the-password"
+        if t is None:
+            yield ob(["C14"], "K3", key, "undecided", where(f), f"{f['id']}: the key handed to the crypto stream was not found")
+            continue
+        cs = list(calls_in(t))
+        digest = isinstance(t, tuple) and t[0] == "call" and t[1].startswith("ring::digest::") and any(a_ == ("param", "password") for a_ in t[2])
+        lossy = [c for c in cs[1:] if c.rsplit("::", 1)[-1] in LOSSY] if cs else []
+        if digest and len(cs) == 1:
+            yield ob(["C14"], "K3", key, "pass", where(f), f"{f['id']}: key = {show_term(t)}")
+        elif lossy or (cs and cs[0].rsplit("::", 1)[-1] in LOSSY):
+            bad = (lossy or cs)[0]
+            yield ob(["C14"], "K3", key, "violation", where(f),
+                     f"{f['id']}: the password passes through `{bad.rsplit('::', 1)[-1]}` before it is hashed (key = {show_term(t)}): "
+                     f"distinct passwords derive the same key, so a file opens with a password it was not saved with")
+        else:
+            yield ob(["C14"], "K3", key, "undecided", where(f),
+                     f"{f['id']}: key = {show_term(t)}: not the plain digest of the password parameter; the derivation is not modelled")
 
 
 # ---------------------------------------------------------------------------------------------
@@ -753,3 +857,347 @@ def k4(facts, tier):
                  "offset advanced by the number of bytes returned" if ok else
                  f"CryptoReader::read copies plaintext to the caller and returns {ret} but advances its offset by {advance}: the same bytes are "
                  f"delivered again, so a file cut at a chunk boundary can load as complete data")
+
+
+# ---------------------------------------------------------------------------------------------
+# K7 (C14, C07): every stored byte is needed by a load: the decompressor is driven to its end-of-stream
+
+@rule("K7", ["C14", "C07"], floor=1, doc="Deserializer::load_impl, compressed branch: after the value has been deserialized the decompressor is read "
+      "once more and its error is propagated, so the compressed stream's end-of-stream trailer (and with it the last encrypted chunk) "
+      "is required to be present and intact")
+def k7(facts, tier):
+    from ..flow import parent_map
+    f = next((g for g in facts.fns.values() if g["crate"] == "savefile" and g["id"].endswith("::load_impl")
+              and "Deserializer" in g["id"]), None)
+    if f is None:
+        return
+    pm = parent_map(f["body"])
+    for blk in walk(f["body"]):
+        if blk.get("k") != "Block":
+            continue
+        dec = None
+        for i, s in enumerate(blk["stmts"]):
+            if s.get("k") == "LetS" and s.get("init") is not None and s["pat"].get("k") == "Bind":
+                c = peel_block(peel(s["init"]))
+                if c.get("k") == "Call" and "Decoder" in (callee(c) or "") and (callee(c) or "").endswith("::new"):
+                    dec = (i, s["pat"]["v"], callee(c))
+        if dec is None:
+            continue
+        i0, D, ctor = dec
+        # position of the payload read
+        pay = None
+        items = list(blk["stmts"]) + ([blk["e"]] if blk.get("e") is not None else [])
+        for i, s in enumerate(items):
+            if i <= i0:
+                continue
+            for x in walk(s):
+                if x.get("k") == "Call" and x.get("trait") == "savefile::Deserialize" and x.get("self_ty") == "T":
+                    pay = i
+        if pay is None:
+            yield ob(["C14", "C07"], "K7", "decompressor-driven-to-end", "undecided", where(f), "payload read not found after the decoder")
+            continue
+        drained = False
+        for i, s in enumerate(items):
+            if i < pay:
+                continue
+            for x in walk(s):
+                if x.get("k") == "Call" and (callee(x) or "").endswith(("Read>::read", "Read>::read_exact", "Read>::read_to_end",
+                                                                         "Read::read", "Read::read_exact", "Read::read_to_end")):
+                    recv = peel(x["args"][0]) if x.get("args") else {}
+                    if recv.get("k") == "Var" and recv["v"] == D:
+                        par = pm.get(id(x))
+                        # after the payload call inside the same statement, or in a later statement
+                        if par is not None and par.get("k") == "Try":
+                            drained = True
+        yield ob(["C14", "C07"], "K7", "decompressor-driven-to-end", "pass" if drained else "violation", where(f),
+                 f"{f['id']}: after the value is read the {ctor.split('::')[-2] if '::' in ctor else ctor} is read once more with its error propagated" if drained else
+                 f"{f['id']}: the decompressor is dropped as soon as the value has been read: its end-of-stream trailer is never demanded, so a "
+                 f"file truncated inside that trailer (for an encrypted file: with its final chunk removed) loads successfully")
+
+
+# ---------------------------------------------------------------------------------------------
+# K5 (C14): every stored byte of the nonce state reaches the nonce
+
+def _int_ty_bytes(ty):
+    m = re.match(r"[ui](\d+)$", ty or "")
+    return int(m.group(1)) // 8 if m else None
+
+
+import re
+
+
+class SlotEval:
+    """constant-folds the construction of a small fixed-size byte array: each slot holds the set of source bytes copied into it"""
+
+    def __init__(self, f):
+        self.f = f
+        self.env = {}      # var -> ("arr", [slot contents]) | ("int", n) | ("iter", [refs]) ...
+        self.unknown = []
+
+    def const(self, n, ienv):
+        n = peel_block(peel(n))
+        k = n.get("k")
+        if k == "Lit" and "int" in n:
+            return n["int"]
+        if k == "Var":
+            v = ienv.get(n["v"])
+            return v if isinstance(v, int) else None
+        if k == "Cast":
+            return self.const(n["e"], ienv)
+        if k == "Bin":
+            a, b = self.const(n["l"], ienv), self.const(n["r"], ienv)
+            if a is None or b is None:
+                return None
+            return {"Add": a + b, "Sub": a - b, "Mul": a * b}.get(n["op"])
+        return None
+
+    def source(self, n):
+        """array of source bytes produced by `<path>.to_le_bytes()` etc."""
+        n = peel_block(peel(n))
+        if n.get("k") == "Var" and n["v"] in self.env and self.env[n["v"]][0] == "arr":
+            return self.env[n["v"]][1]
+        if n.get("k") == "Call":
+            c = callee(n) or ""
+            name = c.rsplit("::", 1)[-1]
+            if name in ("to_le_bytes", "to_be_bytes", "to_ne_bytes") and n["args"]:
+                a = peel(n["args"][0])
+                nb = _int_ty_bytes(c.split("::")[0]) or _int_ty_bytes(a.get("ty", ""))
+                from ..ir import path_of
+                p = path_of(a)
+                if nb and p:
+                    nm = ".".join(x.split("#")[0] for x in p)
+                    order = range(nb) if name != "to_be_bytes" else range(nb - 1, -1, -1)
+                    return [frozenset({(nm, i)}) for i in order]
+        return None
+
+    def iter_of(self, n, ienv):
+        """list of items of an iterator expression: ('slot', arrvar, i) | ('val', content)"""
+        n = peel_block(peel(n))
+        src = self.source(n)
+        if src is not None:
+            return [("val", c) for c in src]
+        if n.get("k") == "Var" and n["v"] in self.env and self.env[n["v"]][0] == "arr":
+            return [("slot", n["v"], i) for i in range(len(self.env[n["v"]][1]))]
+        if n.get("k") == "Call":
+            c = callee(n) or ""
+            name = c.rsplit("::", 1)[-1]
+            a = n["args"]
+            if name in ("iter_mut", "iter", "into_iter", "copied", "cloned", "by_ref") and a:
+                inner = peel(a[0])
+                if name in ("iter", "into_iter"):
+                    s = self.source(inner)
+                    if s is not None:
+                        return [("val", x) for x in s]
+                if inner.get("k") == "Var" and inner["v"] in self.env and self.env[inner["v"]][0] == "arr":
+                    if name == "iter_mut":
+                        return [("slot", inner["v"], i) for i in range(len(self.env[inner["v"]][1]))]
+                    return [("val", x) for x in self.env[inner["v"]][1]]
+                return self.iter_of(inner, ienv)
+            if name in ("skip", "take", "step_by") and len(a) == 2:
+                base, k = self.iter_of(a[0], ienv), self.const(a[1], ienv)
+                if base is None or k is None:
+                    return None
+                return base[k:] if name == "skip" else (base[:k] if name == "take" else base[::k])
+            if name == "rev" and a:
+                base = self.iter_of(a[0], ienv)
+                return None if base is None else base[::-1]
+            if name == "zip" and len(a) == 2:
+                x, y = self.iter_of(a[0], ienv), self.iter_of(a[1], ienv)
+                if x is None or y is None:
+                    return None
+                return [("pair", p, q) for p, q in zip(x, y)]
+            if name == "enumerate" and a:
+                base = self.iter_of(a[0], ienv)
+                return None if base is None else [("pair", ("int", i), b) for i, b in enumerate(base)]
+            if name in ("index_mut", "index") and len(a) == 2:
+                base = self.iter_of(a[0], ienv)
+                from .taint_rules import _range_of
+                r = None
+                for y in walk(a[1]):
+                    r = r or _range_of(y)
+                if base is not None and r:
+                    lo = self.const(r[1], ienv) if r[1] is not None else 0
+                    hi = self.const(r[2], ienv) if r[2] is not None else len(base)
+                    if lo is not None and hi is not None:
+                        return base[lo:hi + (1 if r[0] == "incl" else 0)]
+        if n.get("k") == "Adt":
+            from .taint_rules import _range_of
+            r = _range_of(n)
+            if r:
+                lo, hi = self.const(r[1], ienv) if r[1] is not None else 0, self.const(r[2], ienv)
+                if lo is not None and hi is not None:
+                    return [("int", i) for i in range(lo, hi + (1 if r[0] == "incl" else 0))]
+        return None
+
+    def bind(self, pat, item, ienv):
+        k = pat.get("k")
+        if k == "Bind":
+            ienv[pat["v"]] = item[1] if item[0] == "int" else item
+        elif k in ("Leaf", "Tuple") and item[0] == "pair":
+            subs = [s["p"] if isinstance(s, dict) and "p" in s else s for s in pat.get("subs", [])]
+            for sp, it in zip(subs, item[1:]):
+                self.bind(sp, it, ienv)
+        elif k == "Deref" and pat.get("sub"):
+            self.bind(pat["sub"], item, ienv)
+
+    def value(self, n, ienv):
+        """content of a byte-valued expression"""
+        n = peel_block(peel(n))
+        k = n.get("k")
+        if k == "Var":
+            v = ienv.get(n["v"])
+            if isinstance(v, tuple) and v[0] == "val":
+                return v[1]
+            if isinstance(v, tuple) and v[0] == "slot":
+                return self.env[v[1]][1][v[2]]
+            return None
+        if k == "Index":
+            base = peel(n["e"])
+            i = self.const(n["i"], ienv)
+            src = self.source(base)
+            if src is not None and i is not None and 0 <= i < len(src):
+                return src[i]
+            return None
+        if k == "Lit" and "int" in n:
+            return frozenset()
+        if k == "Bin" and n["op"] in ("BitXor", "BitOr", "Add", "BitAnd"):
+            a, b = self.value(n["l"], ienv), self.value(n["r"], ienv)
+            return None if a is None or b is None else a | b
+        return None
+
+    def stmt(self, s, ienv):
+        k = s.get("k")
+        if k == "Block":
+            for t in s["stmts"]:
+                self.stmt(t, ienv)
+            if s.get("e") is not None:
+                self.stmt(s["e"], ienv)
+            return
+        if k == "ExprS":
+            return self.stmt(s["e"], ienv)
+        if k == "LetS":
+            if s.get("init") is not None and s["pat"].get("k") == "Bind":
+                v = s["pat"]["v"]
+                i = peel_block(peel(s["init"]))
+                if i.get("k") == "Repeat" and isinstance(i.get("n"), int):
+                    self.env[v] = ("arr", [frozenset() for _ in range(i["n"])])
+                    return
+                if i.get("k") == "Repeat":
+                    try:
+                        self.env[v] = ("arr", [frozenset() for _ in range(int(i.get("n")))])
+                        return
+                    except (TypeError, ValueError):
+                        pass
+                src = self.source(i)
+                if src is not None:
+                    self.env[v] = ("arr", list(src))
+                    return
+                c = self.const(i, ienv)
+                if c is not None:
+                    ienv[v] = c
+            return
+        if k == "For":
+            items = self.iter_of(s["iter"], ienv)
+            if items is None:
+                if any(y.get("k") == "Var" and y["v"] in self.env for y in walk(s)):
+                    self.unknown.append(("loop", s.get("ln")))
+                return
+            for it in items:
+                e2 = dict(ienv)
+                self.bind(s["pat"], it, e2)
+                self.stmt(s["body"], e2)
+            return
+        if k == "Assign":
+            l = s["l"]
+            while l.get("k") in ("Deref", "Ref", "Coerce"):
+                if l.get("k") == "Deref" and peel(l).get("k") == "Var":
+                    break
+                l = l["e"]
+            val = self.value(s["r"], ienv)
+            if l.get("k") == "Index" and peel(l["e"]).get("k") == "Var" and peel(l["e"])["v"] in self.env:
+                arr = self.env[peel(l["e"])["v"]][1]
+                i = self.const(l["i"], ienv)
+                if i is None or val is None or not (0 <= i < len(arr)):
+                    self.unknown.append(("assign", s.get("ln")))
+                else:
+                    arr[i] = val
+                return
+            t = peel(l)
+            if t.get("k") == "Var" and isinstance(ienv.get(t["v"]), tuple) and ienv[t["v"]][0] == "slot":
+                _, av, i = ienv[t["v"]]
+                if val is None:
+                    self.unknown.append(("assign", s.get("ln")))
+                else:
+                    self.env[av][1][i] = val
+                return
+            return
+        if k == "Call":
+            c = callee(s) or ""
+            name = c.rsplit("::", 1)[-1]
+            if name in ("copy_from_slice", "clone_from_slice") and len(s["args"]) == 2:
+                dst = self.iter_of(s["args"][0], ienv)
+                src = self.iter_of(s["args"][1], ienv)
+                if dst is None or src is None or len(dst) != len(src) or any(d[0] != "slot" for d in dst):
+                    self.unknown.append(("copy", s.get("ln")))
+                else:
+                    for d, v in zip(dst, src):
+                        self.env[d[1]][1][d[2]] = v[1] if v[0] == "val" else self.env[v[1]][1][v[2]]
+                return
+            for a in s.get("args", []):
+                pa = peel(a)
+                if a.get("k") in ("Ref",) and a.get("mut") and pa.get("k") == "Var" and pa["v"] in self.env:
+                    self.unknown.append(("call " + name, s.get("ln")))
+            return
+        if k in ("If", "Match", "Loop"):
+            if any(y.get("k") == "Var" and y["v"] in self.env for y in walk(s)):
+                self.unknown.append((k, s.get("ln")))
+            return
+
+
+@rule("K5", ["C14"], floor=1, doc="the AEAD nonce is an injective function of the stored nonce state: constant-folding the construction of the 12-byte "
+      "array shows that every byte of `data1` (8) and `data2` (4) occupies a slot of its own")
+def k5(facts, tier):
+    f = next((g for g in facts.fns.values() if g["crate"] == "savefile" and (g.get("impl") or {}).get("trait", "").endswith("NonceSequence")
+              and g.get("name") == "advance"), None)
+    if f is None:
+        return
+    ev_ = SlotEval(f)
+    ev_.stmt(f["body"], {})
+    # the array handed to Nonce::assume_unique_for_key
+    target = None
+    for x in walk(f["body"]):
+        if x.get("k") == "Call" and "Nonce" in (callee(x) or "") and x.get("args"):
+            a = peel(x["args"][0])
+            if a.get("k") == "Var" and a["v"] in ev_.env:
+                target = a["v"]
+    # what the state consists of: integer fields of Self
+    adt = facts.adts.get((f.get("impl") or {}).get("self_ty", ""))
+    want = set()
+    if adt:
+        for v in adt.get("variants", []):
+            for fl in v.get("fields", []):
+                nb = _int_ty_bytes(fl.get("ty"))
+                if nb:
+                    want |= {("self." + fl["name"], i) for i in range(nb)}
+    if target is None or not want:
+        yield ob(["C14"], "K5", "nonce-injective", "undecided", where(f), f"{f['id']}: nonce array / state fields not recognised")
+        return
+    slots = ev_.env[target][1]
+    got = {}
+    for i, c in enumerate(slots):
+        for b in c:
+            got.setdefault(b, []).append(i)
+    missing = sorted(want - set(got))
+    mixed = [i for i, c in enumerate(slots) if len(c) > 1]
+    if ev_.unknown:
+        yield ob(["C14"], "K5", "nonce-injective", "undecided", where(f),
+                 f"{f['id']}: construction of the nonce uses a form that is not constant-folded: {ev_.unknown[:3]}")
+    elif missing:
+        yield ob(["C14"], "K5", "nonce-injective", "violation", where(f),
+                 f"{f['id']}: byte(s) {', '.join(f'{n}[{i}]' for n, i in missing[:4])} of the stored nonce state do not reach the nonce "
+                 f"(slots: {[sorted(c) for c in slots]}): a file whose stored nonce is modified there still decrypts")
+    elif mixed:
+        yield ob(["C14"], "K5", "nonce-injective", "undecided", where(f), f"{f['id']}: slots {mixed} combine several state bytes")
+    else:
+        yield ob(["C14"], "K5", "nonce-injective", "pass", where(f),
+                 f"{f['id']}: the {len(slots)} nonce bytes are the {len(want)} bytes of the stored state, one per slot")
